@@ -13,7 +13,7 @@ pub fn property() -> Property {
     Property {
         id: "C03",
         level: "exploration",
-        rule: "Bounded-exhaustive matrix: 4 methods (GET, HEAD, POST, PURGE) x 12 status codes x 22 Content-Length configurations (absent, valid, repeated equal, disagreeing, negative, empty, non-numeric incl. control characters, > 64 bit, ...) x 17 Transfer-Encoding configurations (incl. HTAB as optional white space, empty list members, a later empty field line) x {no extra bytes, extra bytes after the frame} (x 3 segmentations in thorough). The bytes after the head are chosen so that every framing interpretation (empty / chunked / length n / close) yields a different, recognisable body; the reference decision list is written from the statement. Bodiless responses (HEAD, 1xx, 204, 304) additionally declare gzip/deflate codings in three quarters of the cells. A third of the matrix heads announce HTTP/1.0 (the rules have no version exception). Oracle: delivered body == the body of the expected framing, or the exchange fails when the statement says it must. Followed redirects (301/302/303/307/308) x 8 Content-Length configurations: an unusable length on the redirect response fails the exchange before a second request is made. Non-trivial: every case (a decision is exercised); distinct = hash of the head + body wire + segmentation.",
+        rule: "Bounded-exhaustive matrix: 4 methods (GET, HEAD, POST, PURGE) x 12 status codes x 22 Content-Length configurations (absent, valid, repeated equal, disagreeing, negative, empty, non-numeric incl. control characters, > 64 bit, ...) x 17 Transfer-Encoding configurations (incl. HTAB as optional white space, empty list members, a later empty field line) x {no extra bytes, extra bytes after the frame} (x 3 segmentations in thorough). The bytes after the head are chosen so that every framing interpretation (empty / chunked / length n / close) yields a different, recognisable body; the reference decision list is written from the statement. Bodiless responses (HEAD, 1xx, 204, 304) additionally declare gzip/deflate codings in three quarters of the cells. A third of the matrix heads announce HTTP/1.0 (the rules have no version exception). A fifth of the heads announce a persistent connection, a seventh of the non-chunked ones name `chunked` as a Content-Encoding: neither changes the framing. Oracle: delivered body == the body of the expected framing, or the exchange fails when the statement says it must. Followed redirects (301/302/303/307/308) x 8 Content-Length configurations: an unusable length on the redirect response fails the exchange before a second request is made. Non-trivial: every case (a decision is exercised); distinct = hash of the head + body wire + segmentation.",
         assumptions: &[
             "gray combinations are executed but not judged: chunked not last in the Transfer-Encoding list, invalid Content-Length next to chunked, list-valued or sign-prefixed Content-Length, invalid Content-Length on a response that has no body anyway",
         ],
